@@ -211,6 +211,9 @@ fn gen_tree<M: Machine>(seed: u64, sched: u64, data_no: u64) -> Trace {
 fn gen_long<M: Machine>(seed: u64, run: u64, max_pow10: u32) -> Trace {
     plans::generate_long_run::<M>(seed, run, max_pow10)
 }
+fn gen_long_c09<M: Machine>(seed: u64, run: u64) -> Trace {
+    plans::generate_long_c09::<M>(seed, run)
+}
 fn gen_fault<M: Machine>(property: &str, seed: u64, run: u64, mode: faulty::Mode) -> Trace {
     faulty::generate::<M>(property, seed, run, mode)
 }
@@ -491,16 +494,27 @@ fn run_c09(ctx: &Ctx) -> i32 {
     } else {
         Batch::default()
     };
+    // long streams: the sample count crosses the 100 000 boundary (Student-t -> normal quantile)
+    let n_long: u64 = if thorough { 20 } else { 2 };
+    let b4: Batch<Art> = if b1.violations.is_empty() && b2.violations.is_empty() && b3.violations.is_empty() {
+        runner::run_batch("long streams (6*10^4 .. 3*10^5 records, chunks around the 100 000 boundary)", n_long * nm, true, move |j, stats| {
+            let m = C09_MACHINES[(j % nm) as usize];
+            let tr: Trace = dispatch_machine!(m, gen_long_c09, seed, j / nm);
+            trace_job(tr, (j % nm) as u32, stats, j == 0)
+        })
+    } else {
+        Batch::default()
+    };
     let rule = "one evaluation = one seeded API-call program over {new/default, append, extend (Vec/VecDeque/LinkedList/Option/array), from_iter, copy/clone, +, +=, inherent add, merge with empty, query} delivering a multiset to one of 12 machine kinds, compared with the batch computation of the same multiset; distinct = distinct event-shape sequences (data erased); non-trivial = at least one merge and two non-empty deliveries";
     let assumptions = ["tolerances are first-order rounding bounds with K = 8, c_v = 40 (DESIGN 5.3); below the conditioning threshold only count and mean are compared", "exact reference = sim/src/exact.rs"];
-    let firsts: Vec<&(u64, Art, Violation)> = [&b1, &b2, &b3].iter().filter_map(|b| b.first_violation()).collect();
+    let firsts: Vec<&(u64, Art, Violation)> = [&b1, &b2, &b3, &b4].iter().filter_map(|b| b.first_violation()).collect();
     let mut new = 0;
     if let Some((_, a, v)) = firsts.first() {
         if report(ctx, a, v) {
             new = 1;
         }
     }
-    write_partial(ctx, "exploration", &[&b1, &b2, &b3], new, rule, &assumptions, json!({"merge_tree_schedules": n_sched, "data_sets_per_schedule": n_data}), Some("oriented binary merge trees over 2..5 labelled chunks (2+12+120+1680) x {plain, empty chunk at each leaf, empty operand after each node}: every schedule enumerated (data, chunk sizes, styles and operators are seeded)"));
+    write_partial(ctx, "exploration", &[&b1, &b2, &b3, &b4], new, rule, &assumptions, json!({"merge_tree_schedules": n_sched, "data_sets_per_schedule": n_data}), Some("oriented binary merge trees over 2..5 labelled chunks (2+12+120+1680) x {plain, empty chunk at each leaf, empty operand after each node}: every schedule enumerated (data, chunk sizes, styles and operators are seeded)"));
     if new > 0 {
         1
     } else {
